@@ -274,3 +274,60 @@ Section Respond.
         end
     end.
 End Respond.
+
+(** * The response side with an upstream that may fail
+
+    [upstream name qt = None]: the exchange returned an error (transport
+    failure) instead of a message.  dnsproxy then builds a SERVFAIL reply
+    from the request as it is at that moment (proxy.handleExchangeResult),
+    Resolve returns the error, processUpstream returns resultCodeError, so
+    processFilteringAfterResponse does not run, and proxy.handleDNSRequest
+    still sends that reply ([p.respond(d)] after the handler's error).  For
+    a CNAME resolved upstream the request carries the canonical name at that
+    moment.  The boolean is "the handler returned an error".
+
+    Whatever the upstream replies (any RCODE, any answer section, empty
+    included) the reply object is reused: question restored, CNAME put in
+    front, RCODE untouched. *)
+Definition rcode_servfail : N := 2.
+
+Section RespondE.
+  Variable sort : list entry -> list entry.
+  Variable upstream : bytes -> N -> option (N * list rr).
+
+  (** Ask the upstream for [asked]; on a reply deliver it under the question
+      [shown] with [front] before its records. *)
+  Definition forward (asked shown : bytes) (qt : N) (front : list rr) : bool * response :=
+    match upstream asked qt with
+    | Some (rc, ans) =>
+        (false, {| rp_qname := shown; rp_rcode := rc; rp_answer := front ++ ans;
+                   rp_upstream := [(asked, qt)] |})
+    | None =>
+        (true, {| rp_qname := asked; rp_rcode := rcode_servfail; rp_answer := [];
+                  rp_upstream := [(asked, qt)] |})
+    end.
+
+  (** getCNAMEWithIPs *)
+  Definition local_response (r : rw_result) (qname : bytes) (qt : N) : response :=
+    let owner := if is_nil (r_canon r) then qname else r_canon r in
+    let cn := if is_nil (r_canon r) then [] else [RR_CNAME qname (r_canon r)] in
+    let addrs :=
+      if qt =? qA then answers_v4 owner (r_ips r)
+      else if qt =? qAAAA then answers_v6 owner (r_ips r)
+      else [] in
+    {| rp_qname := qname; rp_rcode := 0; rp_answer := cn ++ addrs; rp_upstream := [] |}.
+
+  Definition respond_e (enabled : bool) (tbl : list entry) (qname : bytes) (qt : N)
+    : option (bool * response) :=
+    match check_host sort enabled tbl qname qt with
+    | None => None
+    | Some r =>
+        match r_reason r with
+        | NotFound => Some (forward qname qname qt [])
+        | Rewritten =>
+            if negb (is_nil (r_canon r)) && is_nil (r_ips r) then
+              Some (forward (r_canon r) qname qt [RR_CNAME qname (r_canon r)])
+            else Some (false, local_response r qname qt)
+        end
+    end.
+End RespondE.
